@@ -186,6 +186,7 @@ type sysCluster struct {
 	key     clusterKey
 	c       test.Cluster
 	indexes map[string]string // data key -> index name
+	order   []string          // data keys, oldest first
 	nextIdx int
 }
 
@@ -317,6 +318,16 @@ func (e *sysEnv) ensureIndex(sc *sysCluster, key string, data []dataCol, nshards
 		}
 	}
 	sc.indexes[key] = name
+	sc.order = append(sc.order, key)
+	// every index keeps its fragments' files open: keep the most recent ones only
+	for len(sc.order) > 6 {
+		old := sc.order[0]
+		sc.order = sc.order[1:]
+		if err := api.DeleteIndex(ctx, sc.indexes[old]); err != nil {
+			return "", nil, fmt.Errorf("deleting index %s: %v", sc.indexes[old], err)
+		}
+		delete(sc.indexes, old)
+	}
 	return name, ps, nil
 }
 
@@ -385,6 +396,12 @@ func (e *sysEnv) runSystem(c *sysCase, res *behav.Result) (fails []sysFail, inco
 		key += mustJSON(owner) // the data lives where this placement put it
 	}
 	index, parts, err := e.ensureIndex(sc, key, data, nshards, owner)
+	for try := 0; err != nil && try < 2; try++ {
+		// creating an index is a cluster-wide message exchange; on an overloaded machine it can time out
+		// half-way (and its retry then finds the index): start over with the next index name
+		time.Sleep(200 * time.Millisecond)
+		index, parts, err = e.ensureIndex(sc, key, data, nshards, owner)
+	}
 	if err != nil {
 		return nil, "setup: " + err.Error()
 	}
